@@ -88,3 +88,50 @@ Definition install (mutually_exclusive : bool) (ex : executor_kind) (p : prim) :
 (* some mutual-exclusion wrapper sits between the evaluators and the raw primitive *)
 Fixpoint guarded (p : prim) : bool :=
   match p with Raw => false | MutexW _ | BatchingMutexW _ => true | TranspilingW q => guarded q end.
+
+(* ------------------------------------------------------------------ the lazy-lock variant (seeded mutation C07-m1)
+   `_lock` starts as None and is created on the first run() by an unsynchronised check-then-act:
+       lock = self._lock;  if lock is None: lock = self._lock = SerializableLock();  with lock: primitive.run(...)
+     Z0 read the field   Z1 construct a lock (only if the read gave None)   Z2 store it in the field
+     Z3 acquire the lock the thread holds in its local   Z4 run() entered   Z5 run() returns   Z6 release *)
+Inductive zpc : Type := Z0 | Z1 | Z2 | Z3 | Z4 | Z5 | Z6 | ZDone.
+Record zthread : Type := { z_pc : zpc; z_lock : option nat (* local `lock`: index of a lock object *) }.
+Record zstate : Type := { z_field : option nat; z_owners : list (option nat); z_ths : list zthread }.
+
+Definition z_init (n : nat) : zstate :=
+  {| z_field := None; z_owners := []; z_ths := repeat {| z_pc := Z0; z_lock := None |} n |}.
+
+Definition zstep (st : zstate) (t : nat) : option zstate :=
+  match nth_error (z_ths st) t with
+  | None => None
+  | Some th =>
+      let upd_th th' := mupd t th' (z_ths st) in
+      match z_pc th with
+      | Z0 => Some {| z_field := z_field st; z_owners := z_owners st;
+                      z_ths := upd_th {| z_pc := match z_field st with None => Z1 | Some _ => Z3 end; z_lock := z_field st |} |}
+      | Z1 => Some {| z_field := z_field st; z_owners := z_owners st ++ [None];
+                      z_ths := upd_th {| z_pc := Z2; z_lock := Some (length (z_owners st)) |} |}
+      | Z2 => Some {| z_field := z_lock th; z_owners := z_owners st; z_ths := upd_th {| z_pc := Z3; z_lock := z_lock th |} |}
+      | Z3 => match z_lock th with
+              | Some l => match nth_error (z_owners st) l with
+                          | Some None => Some {| z_field := z_field st; z_owners := mupd l (Some t) (z_owners st);
+                                                 z_ths := upd_th {| z_pc := Z4; z_lock := z_lock th |} |}
+                          | _ => None
+                          end
+              | None => None
+              end
+      | Z4 => Some {| z_field := z_field st; z_owners := z_owners st; z_ths := upd_th {| z_pc := Z5; z_lock := z_lock th |} |}
+      | Z5 => Some {| z_field := z_field st; z_owners := z_owners st; z_ths := upd_th {| z_pc := Z6; z_lock := z_lock th |} |}
+      | Z6 => match z_lock th with
+              | Some l => Some {| z_field := z_field st; z_owners := mupd l None (z_owners st);
+                                  z_ths := upd_th {| z_pc := ZDone; z_lock := z_lock th |} |}
+              | None => None
+              end
+      | ZDone => None
+      end
+  end.
+
+Fixpoint zrun (st : zstate) (sched : list nat) : option zstate :=
+  match sched with [] => Some st | t :: r => match zstep st t with None => None | Some st' => zrun st' r end end.
+
+Definition z_using (th : zthread) : bool := match z_pc th with Z5 => true | _ => false end.
